@@ -245,11 +245,12 @@ class _Caller:
 
 
 class Interp:
-    def __init__(self, prog, ctx):
+    def __init__(self, prog, ctx, call_filtered=True):
         """ctx: the resolved render context (real objects)"""
         from mc import c02_env
 
         self.prog = prog
+        self.call_filtered = call_filtered
         self.stack = [[]]
         self.steps = [0]
         env = {"__builtins__": __builtins__}
@@ -330,7 +331,12 @@ class Interp:
 
                 self._pending = _Caller(body_fn)
                 r = eval(name + "()", env)
-                self.write(r)  # <%call> writes the callee's return value as it is
+                # what <%call> does with the callee's return value is not fixed by the statement: either it is
+                # written as it is, or expr= is an expression substitution with an empty local filter list
+                if self.call_filtered:
+                    st = expression_stages([], self.prog.get("P"), self.prog.get("D"))
+                    r = apply_stages(st, r, env, self.steps).v
+                self.write(r)
             elif k == "texttag":
                 _, s, filters = nd
                 if filters is None:
@@ -345,11 +351,26 @@ class Interp:
         return "".join(self.stack[0])
 
 
+def _has_call(nodes):
+    for nd in nodes:
+        if nd[0] == "call":
+            return True
+        if nd[0] in ("def", "block") and _has_call(nd[3]):
+            return True
+    return False
+
+
 def reference(prog, ctx):
-    """-> ("ok", text, steps) | ("dontcare", reason, steps) | ("error", exception class name, steps)"""
+    """-> ("ok", text, steps, [other allowed texts]) | ("dontcare", reason, steps) | ("error", exception class name, steps)"""
     it = Interp(prog, ctx)
     try:
-        return ("ok", it.render(), it.steps[0])
+        out = it.render()
+        alt = []
+        if _has_call(prog["body"]):
+            a = Interp(prog, ctx, call_filtered=False).render()
+            if a != out:
+                alt.append(a)
+        return ("ok", out, it.steps[0], alt)
     except DontCare as e:
         return ("dontcare", str(e), it.steps[0])
     except Exception as e:  # the documented composition itself raises: so must the template
